@@ -36,21 +36,14 @@ Definition obs_eqb (a b : obs) : bool :=
   outcome_eqb oa ob && list_eqb kp_eqb pa pb && Bool.eqb ea eb && list_eqb (list_eqb val_eqb) la lb.
 Definition obsl_eqb := list_eqb obs_eqb.
 
-(* open finding classes (findings/C08.json):
-   11 Array.prototype.toString forwards its arguments to join
-   12 the callback methods read length only after the IsCallable test
-   every other departure from ES5 is a violation *)
-Definition classify (init : obj) (ops : list op) (s : list obs) : Z :=
-  if obsl_eqb (run es5_tostring_args init ops) s then 12 else 11.
-
+(* no finding of C08 is open: every departure from ES5 is a violation (class 0) *)
 Definition verdict (c : case) : Z * Z :=
   match c with
   | CHist init ops observed =>
       let s := run es5 init ops in
       let m := run otto init ops in
       if declines s || declines m then declined
-      else if obsl_eqb m s then judge obsl_eqb observed m s 0
-      else judge obsl_eqb observed m s (classify init ops s)
+      else judge obsl_eqb observed m s 0
   | CSort elems cmp observed =>
       match sort_model elems cmp with
       | None => declined
